@@ -448,3 +448,52 @@ def sm7(P, C, floor=2):
             ok = len(rcopies) == 1 and not revs
             det = "naxes = the temporary copied back to front (%d reversed copy)" % len(rcopies)
         C.ob("SM-7", name, "axes-reversed", ok, f.loc(at), det)
+
+
+def vg5(P, C):
+    """VG-5: estimateMemory does not index its per-dimension vectors with an unchecked argument."""
+    C.rule("VG-5", "estimateMemory sizes its per-dimension vectors by the number of axes it reads from the file; a subscript of one of them by "
+           "an argument (the declared convolution dimension) is dominated by a throwing guard that compares that argument with the same "
+           "count — a file that is not a spline table (NAXIS = 0) or a declared dimension beyond the table's must be refused, as "
+           "convolve itself refuses it", floor=1)
+    fs_ = [g for g in P.fns("estimateMemory") if g.unit == "driver"]
+    if not fs_:
+        raise core.AnalysisBroken("VG-5: estimateMemory not found")
+    f = fs_[0]
+    from . import vg
+    pidx = {p["id"]: p["name"] for p in f.params}
+    guards = vg.guards_of(f)
+    pos = f.node_positions()
+    dom = f.dominators()
+
+    def at(x):
+        while x >= 0 and x not in pos:
+            x = f.parent[x]
+        return pos.get(x)
+    n = 0
+    for i in f.walk():
+        n_ = f.nodes[i]
+        if not ((n_["k"] == "CXXOperatorCallExpr" and n_.get("opcall") == "[]") or n_["k"] == "ArraySubscriptExpr"):
+            continue
+        idx = f.strip(n_["ch"][-1])
+        if f.k(idx) != "DeclRefExpr" or f.nodes[idx]["decl"].get("kind") != "ParmVar" or f.nodes[idx]["decl"].get("id") not in pidx:
+            continue
+        pname = pidx[f.nodes[idx]["decl"]["id"]]
+        ok = False
+        for g in guards:
+            conn, leaves = core.cond_leaves(f, f.nodes[g["node"]]["cond"])
+            if conn not in ("||", "leaf"):
+                continue
+            for lf in leaves:
+                orr = f.oriented(lf, lambda x: f.k(x) == "DeclRefExpr" and f.nodes[x]["decl"].get("id") == f.nodes[idx]["decl"]["id"])
+                if orr and orr[1] in (">=", ">"):
+                    pg, ph = at(f.strip(lf)), at(i)
+                    if pg and ph and ((pg[0] == ph[0] and pg[1] < ph[1]) or (pg[0] != ph[0] and pg[0] in dom.get(ph[0], ()))):
+                        ok = True
+        n += 1
+        C.ob("VG-5", "estimateMemory", "%s[%s]@%d" % (f.render(n_["ch"][-2])[:20], pname, n_["loc"][0]), ok, f.loc(i),
+             "indexed by the argument %s behind a throwing guard that bounds it" % pname if ok else
+             "indexed by the argument %s, which nothing compares with the number of dimensions of the file: a FITS file with NAXIS = 0, or a "
+             "declared dimension beyond the table's, writes outside the vector" % pname)
+    if n == 0:
+        raise core.AnalysisBroken("VG-5: estimateMemory subscripts nothing by an argument")
